@@ -1,6 +1,7 @@
 -- GENERATED: axiom audit for Props/C16*.lean
 import Props.C16_hier
 import Props.C16_history
+import Props.C16_registry
 import Props.C16_xml
 #print axioms SpyneModel.Props.C16hier.facts02_rt
 #print axioms SpyneModel.Props.C16hier.ctx
@@ -12,6 +13,8 @@ import Props.C16_xml
 #print axioms SpyneModel.Props.C16history.flat_info_after_append
 #print axioms SpyneModel.Props.C16history.flat_info_after_insert
 #print axioms SpyneModel.Props.C16history.use_keeps_flat_info
+#print axioms SpyneModel.Props.C16registry.subclass_in_base_namespace_is_registered
+#print axioms SpyneModel.Props.C16registry.regStep_keeps
 #print axioms SpyneModel.Props.C16xml.poly_roundtrip
 #print axioms SpyneModel.Props.C16xml.poly_roundtrip_soft
 #print axioms SpyneModel.Props.C16xml.poly_keeps_class
